@@ -3,6 +3,7 @@ import KpModel.Db.MergeInv
 import KpModel.Db.MergeSpec
 import KpModel.Db.MergeDel
 import KpModel.Db.MergeDelG
+import KpModel.Db.MergeDelE
 /-!
 # C15 — merge honours deletions exactly when they are newer, and never resurrects
 Property theorems only.  Proved for all inputs: the destination's tombstone list only grows (it stays a
@@ -236,5 +237,36 @@ theorem C15_group_kept_unless_newer (now : Int) (dst src d' : Db) (evs : List Ev
     (hall : ∀ d ∈ src.tombs, d.uuid = u → ¬ (t.mtime.getD now < d.time)) :
     u ∈ uuidsL d'.root.children ∧ tombsContain d'.tombs u = false :=
   merge_group_kept now dst src d' evs ⟨hr, hn⟩ hfd hsg h pd hpd u c t ch hd hsrc hsr hnt hall
+
+/-- **C15 (an empty group with a newer tombstone is deleted)**: the destination holds the group `u` below its root, without
+    children and without a tombstone for it (the same root group on both sides, with a UUID of its own); the source's tree does
+    not hold `u`, and one of the source's tombstones for it is later than the group's last modification in the destination.
+    Then the merge removes the group and records a tombstone for it: the group passes put nothing into a group the source does
+    not hold (`mergeGroup_frame`: every append goes to the group the source frame designates), leave its modification time alone,
+    and the work queue of `merge_deletions` reaches the newer tombstone while the group is still there.  With
+    `C15_group_kept_unless_newer`: an empty group disappears if and only if a tombstone for it is newer. -/
+theorem C15_empty_group_deleted_if_newer (now : Int) (dst src d' : Db) (evs : List Event)
+    (hr : dst.root.isGroup = true) (hn : (uuidsL dst.root.children).Nodup)
+    (hrs : src.root.isGroup = true) (hns : (uuidsL src.root.children).Nodup)
+    (hru : src.root.uuid = dst.root.uuid)
+    (hfd : dst.root.uuid ∉ uuidsL dst.root.children) (hfs : src.root.uuid ∉ uuidsL src.root.children)
+    (h : merge now dst src = .ok (d', evs)) (pd : List Nat) (hpd : pd ≠ []) (u c : Nat) (t : Times)
+    (hd : getPath dst.root pd = some (.group u c t []))
+    (hsrc : u ∉ uuidsL src.root.children) (hnt : tombsContain dst.tombs u = false)
+    (hex : ∃ d ∈ src.tombs, d.uuid = u ∧ t.mtime.getD now < d.time) :
+    u ∉ uuidsL d'.root.children ∧ tombsContain d'.tombs u = true :=
+  merge_empty_group_deleted now dst src d' evs ⟨hr, hn⟩ ⟨hrs, hns⟩ hru hfd hfs h pd hpd u c t hd hsrc hnt hex
+
+/-- the premises are met: the source deleted the empty group 2 at time 9, the destination last touched it at 5 -/
+def exGDelDst : Db := ⟨.group 1 0 ⟨some 5, none, 0⟩ [.group 2 0 ⟨some 5, none, 0⟩ [], .group 3 0 ⟨some 5, none, 0⟩ []], []⟩
+def exGDelSrc : Db := ⟨.group 1 0 ⟨some 5, none, 0⟩ [.group 3 0 ⟨some 5, none, 0⟩ []], [⟨2, 9⟩]⟩
+set_option linter.unusedSimpArgs false in
+set_option maxRecDepth 8000 in
+example : merge 100 exGDelDst exGDelSrc
+    = .ok (⟨.group 1 0 ⟨some 5, none, 0⟩ [.group 3 0 ⟨some 5, none, 0⟩ []], [⟨2, 9⟩]⟩, [(.groupDeleted, 2)]) := by
+  simp [merge, exGDelDst, exGDelSrc, mergeRoot, groupMergeData, groupCount, groupCountL, mergePasses, mergeGroup, mergeEntries,
+    mergeSubgroups, refreshPath, findLoc, findLocL, findLocG, findEntry, findGroup, getPath, updatePath, updFirst, removeNode, St.ev,
+    mergeDeletions, deleteEntries, deleteGroups, deletionFuel, tombsContain, Node.children, Node.uuid, Node.isGroup, Node.setChildren,
+    Node.times, bind, Except.bind, pure, Except.pure]
 
 end Kp.Merge
